@@ -18,13 +18,19 @@ equivalent plastic strain).
       strain, the new value is the root, the elastic paths leave the state unchanged; the quantity whose positivity is
       the yield test is minus the residual at the old state up to a non-negative offset (so yielding => residual(lower
       end) < 0), and the residual is strictly positive at the upper end (root-finder contract), for H > 0, H = 0, with
-      and without rate sensitivity;
+      and without rate sensitivity; two sites, one quantity: the residual tolerance rho of the settings handed to the root finder
+      (the field that get_settings' r_tol reaches; the step tolerance must be 0) and the tolerance b / a of the yield test
+      g = a * (-residual(old eqps)) - b > 0 satisfy a * rho - b <= 0 for all constants and old states, on every yielding path of
+      every kinematics option (generic data) and on the strain families (H > 0 / H = 0, hardened / virgin old state): every iterate
+      the solve accepts is accepted as elastic by the yield test at the committed state (yield consistency to the tolerance of
+      the yield test, repeated update changes nothing);
   D3  variational wiring: the residual handed to the root finder is d/d(eqps) of the energy density the model exposes,
       evaluated at the updated state (stationarity of the incremental potential); for additive kinematics and
       rate-independent hardening the energy is the same before and after the update is committed; for each kinematics
       option the energy closure and the state update solve the same scalar equation on the same bracket (same trial
       elastic strain).
-Not decided: yield consistency to tolerance, minimality (second-order condition), idempotence as numbers; commit
+Not decided: that the iteration reaches the tolerance (C17: convergence of the safeguarded Newton iteration is numerical), round-off
+in the evaluation of the yield test, minimality (second-order condition); commit
 invariance for the multiplicative update (needs log(exp(A) B) identities); the size of the degeneracy tolerance.
 """
 from __future__ import annotations
@@ -44,11 +50,13 @@ from .C09_sym import (Harness, explore, atom, generic, generic_sym, ident3, zero
 
 LEVEL = "other"
 RULE_TEXT = ("obligations = (kinematics option x feasible path: trace of the plastic increment is 0) + (option: state slot roles, virgin state, "
-             "update structure) + (yielding path: root-finder bracket roles and signs) + (case: residual = d energy / d eqps; commit invariance) + "
+             "update structure) + (yielding path: root-finder bracket roles and signs; residual tolerance of the solve within the tolerance of the yield test) + "
+             "(case: residual = d energy / d eqps; commit invariance) + "
              "(option: energy closure and state update solve the same equation) + (option scenario: dimensional homogeneity)")
 EXPLANATION = ("Abstract interpretation of the J2 model through its factory and returned closures on generic symbolic tensors (exact rational "
                "entries, all feasible paths, recording root finder, interned opaque spectral functions): tracelessness of the plastic increment, "
-               "state layout by use, bracket roles and residual signs, stationarity of the exposed energy, commit invariance, agreement of the "
+               "state layout by use, bracket roles and residual signs, stop tolerance of the scalar solve against the tolerance of the yield test, "
+               "stationarity of the exposed energy, commit invariance, agreement of the "
                "scalar equation between energy and state update per kinematics option; frame typing of the finite-deformation update; "
                "dimensional homogeneity by unit scaling. Numerical accuracy of the return mapping is not decided.")
 
@@ -72,6 +80,7 @@ def run(ctx):
     ctx.guard(tensorid.run_identities, ctx, "D1/T7-tensor-helper-identities", ["inv", "deviator", "norm_of_deviator_squared"])
     ctx.trust("det exp(A) = exp(tr A); an isotropic function of a symmetric tensor commutes with it")
     ctx.assume("shear modulus > 0; the root returned by find_root lies in the bracket it is given (C17)")
+    ctx.assume("the values given to ScalarRootFind.get_settings as r_tol / x_tol bound |residual| / |step| at convergence of find_root (C17 O4, O6)")
 
 
 def _rule(ctx, h, fn):
@@ -592,6 +601,7 @@ def d2_bracket(ctx, h):
                                bad_detail=f"{cons}: on a path without plastic solve the state changes (new eqps {short(e_new)}; length {p.value.value.ravel().shape[0]})")
             if not n_y or not n_e:
                 raise EvalError(f"{n_y} yielding and {n_e} elastic paths")
+            d2_tolerances(ctx, h, kin, paths, all_atoms(generic("h")))
         except INTERP_ERRORS as ex:
             ctx.undecided(rule, h.fscope, None, construct=f"{cons}:bracket-roles", detail=str(ex)[:300])
     d2_bracket_signs(ctx, h)
@@ -616,6 +626,47 @@ def yield_test_offset(g, fl, positive):
     if sg is None and _sign_witness(b, want_positive=True, strict=False):
         sg = -1
     return (True if sg in (0, 1) else (False if sg == -1 else None)), shown
+
+
+def yield_scale_offset(g, fl, positive):
+    """(a, b) with g = a * (-fl) - b, a > 0 and b free of the strain amplitude t; None when the yield test is not of that form."""
+    cg = _A.diff(g, "t")
+    cf = _A.diff(_A.norm(-fl.a), "t")
+    if "t" in cg.atoms() or "t" in cf.atoms() or rat_is_zero(cf):
+        return None
+    a = _A.norm(simplify(cg / cf))
+    b = _A.norm(simplify(a * _A.norm(-fl.a) - g))
+    if rat_sign(a, positive) != 1 or "t" in b.atoms():
+        return None
+    return a, b
+
+
+def solver_tolerance_case(h, run, sol, g, fl, sub, positive):
+    """Two sites, one quantity.  The root finder accepts an iterate e as soon as |residual(e)| < rho (rho: the residual tolerance in the
+    settings of the recorded solve; the step tolerance must be 0 for the bound to hold).  The yield test, yielding <=> g > 0 with
+    g = a * (-residual(old eqps)) - b, accepts an overstress of b / a as elastic.  At the committed state the residual at the *new*
+    old-eqps is the residual at the accepted iterate, so the committed state is accepted as elastic (stress inside the yield surface to
+    the tolerance of the yield test, repeated update changes nothing) for every accepted iterate iff  a * rho - b <= 0  for all
+    admissible constants and old states.  Returns (verdict, text)."""
+    ab = yield_scale_offset(g, fl, positive)
+    if ab is None:
+        return None, "the yield test is not a * (-residual(old eqps)) - b with a > 0 and b independent of the strain"
+    a, b = ab
+    rho, xtol = h.solver_tolerances(run, sol)
+    rho_, xt_ = sub(rho), sub(xtol)
+    shown = f"residual tolerance of the solve rho = {short(rho_, 90)}, yield test = a * (-residual(old eqps)) - b with a = {short(a, 40)}, b = {short(b, 90)}"
+    if not rat_is_zero(xt_):
+        return None, (f"the scalar solve also stops when |step| < {short(xt_, 60)}; a stop on the step size does not bound the residual, so the "
+                      f"overstress of the committed state is not bounded by a static argument ({shown})")
+    excess = _A.norm(simplify(a * rho_ - b))
+    sg = rat_sign(excess, positive)
+    wit = ""
+    if sg is None:
+        wit = _sign_witness(excess, want_positive=False, strict=False)
+        if wit:
+            sg = 1
+    text = f"{shown}; a * rho - b = {short(excess, 120)}{wit}"
+    return (True if sg in (0, -1) else (False if sg == 1 else None)), text
 
 
 def d2_bracket_signs(ctx, h):
@@ -691,9 +742,122 @@ def d2_bracket_signs(ctx, h):
                        detail=f"yield test = a * (-residual(old eqps)) - b with {shown}: yielding implies a negative residual at the lower end, and only a tolerance-sized overshoot stays elastic",
                        bad_detail=f"yield test = a * (-residual(old eqps)) - b with {shown}: the yield test is not (trial Mises stress - flow stress) > tolerance with a non-negative "
                                   f"tolerance; a step can be declared yielding while the residual at the old state is already non-negative")
+            # the tolerance at which the solve stops and the tolerance of the yield test refer to the same quantity
+            cons_t = f"solver-residual-tolerance-within-yield-tolerance[{tag}]"
+            if rate:
+                continue        # (with rate sensitivity the committed state carries the viscous overstress: the clause is about rate-independent hardening)
+            try:
+                ok_tol, shown_t = solver_tolerance_case(h, p.value, sol, g, fl, sub, I.positive)
+                if ok_tol is None:
+                    ctx.undecided(d2_tolerances.RULE, h.fscope, None, construct=cons_t, detail=shown_t)
+                    continue
+                ctx.decide(d2_tolerances.RULE, ok_tol, h.fscope, None, construct=cons_t,
+                           detail=f"{shown_t}: every iterate the root finder accepts (|residual| < rho) is accepted as elastic by the yield test at the committed state",
+                           bad_detail=f"the residual tolerance handed to the root finder exceeds the tolerance of the yield test for {hcase}, {scase} ({shown_t}): the solve may stop at an "
+                                      f"iterate whose overstress the yield test does not accept as elastic, so the committed stress lies outside the yield surface by more than the "
+                                      f"yield tolerance and the update repeated at the same deformation yields again (the two tolerances must refer to the same stress)")
+            except INTERP_ERRORS as ex:
+                ctx.undecided(d2_tolerances.RULE, h.fscope, None, construct=cons_t, detail=str(ex)[:300])
         except INTERP_ERRORS as ex:
             ctx.undecided(rule, h.fscope, None, construct=f"bracket-signs[{tag}]", detail=str(ex)[:300])
     ctx.assume("the plastic residual depends on the trial strain only through its deviator (isotropy): bracket signs are decided on two deviatoric directions")
+
+
+def _last_parting(p, others):
+    """(difference expression, sign on p) of the comparison on which p parts from the path of `others` it shares the longest run of
+    decisions with."""
+    best, depth = None, -1
+    for o in others:
+        for i, ((k1, d1, s1), (k2, d2, s2)) in enumerate(zip(p.trail, o.trail)):
+            if k1 != k2:
+                break
+            if s1 != s2:
+                if i > depth:
+                    best, depth = (d1, s1), i
+                break
+    return best
+
+
+def _strain_atoms(exprs, seeds):
+    """atoms of the expressions that stand for the deformation: the symbols of the generic displacement gradient, the entries of opaque
+    spectral functions of it, and algebraic atoms (square roots) of expressions containing one of them."""
+    out = set()
+    for r in exprs:
+        for a_ in r.atoms():
+            if a_ in seeds or a_.startswith("spec") or (a_.startswith("sqrt[") and any(sd in a_ for sd in seeds | {"spec"})):
+                out.add(a_)
+    return out
+
+
+def d2_tolerances(ctx, h, kin, paths, seeds):
+    """Per kinematics option, on generic data: on every yielding path the yield test g > 0 (the last comparison on which the path parts
+    from an elastic path) is a * (-residual(old eqps)) - b with a > 0 and a, b free of the deformation; the residual tolerance rho of the
+    recorded solve must satisfy a * rho - b <= 0 (see solver_tolerance_case)."""
+    rule = d2_tolerances.RULE
+    elastic = [p for p in paths if p.error is None and not _yielding(h, kin, p.value, None)]
+    for p in paths:
+        if p.error is not None or not _yielding(h, kin, p.value, None):
+            continue
+        cons = f"kinematics={_kname(kin)}[path {p.label()}]:solver-residual-tolerance-within-yield-tolerance"
+        try:
+            if len(p.value.solves) != 1:
+                raise EvalError(f"{len(p.value.solves)} scalar solves on the yielding path")
+            sol = p.value.solves[0]
+            part = _last_parting(p, elastic)
+            if part is None:
+                raise EvalError("the comparison that separates the yielding from the elastic path was not identified")
+            g = _A.norm(simplify(part[0] * te.R(part[1])))
+            fl = h.residual(p.value, sol, sol.lo)
+            mfl = _A.norm(simplify(-fl.a))
+            pos = p.value.interp.positive
+            S = _strain_atoms([g, mfl], seeds)
+            ab = None
+            for X in sorted(S):
+                cf = _A.norm(simplify(_A.diff(mfl, X)))
+                if rat_is_zero(cf):
+                    continue
+                a = _A.norm(simplify(_A.diff(g, X) / cf))
+                if a.atoms() & S or rat_sign(a, pos) != 1:
+                    continue
+                b = _A.norm(simplify(a * mfl - g))
+                if b.atoms() & S:
+                    continue
+                ab = (a, b)
+                break
+            if ab is None:
+                ctx.undecided(rule, h.fscope, None, construct=cons,
+                              detail="the yield test is not a * (-residual(old eqps)) - b with a > 0 and a, b independent of the deformation")
+                continue
+            a, b = ab
+            rho, xtol = h.solver_tolerances(p.value, sol)
+            shown = (f"residual tolerance of the solve rho = {short(rho, 90)}, yield test = a * (-residual(old eqps)) - b with a = {short(a, 40)}, "
+                     f"b = {short(b, 90)}")
+            if not rat_is_zero(_A.norm(simplify(xtol.a))):
+                ctx.undecided(rule, h.fscope, None, construct=cons,
+                              detail=f"the scalar solve also stops when |step| < {short(xtol, 60)}; a stop on the step size does not bound the residual ({shown})")
+                continue
+            excess = _A.norm(simplify(a * rho.a - b))
+            sg = rat_sign(excess, pos)
+            wit = ""
+            if sg is None and not (excess.atoms() & S):
+                wit = _sign_witness(excess, want_positive=False, strict=False)
+                if wit:
+                    sg = 1
+            ok = True if sg in (0, -1) else (False if sg == 1 else None)
+            text = f"{shown}; a * rho - b = {short(excess, 120)}{wit}"
+            if ok is None:
+                ctx.undecided(rule, h.fscope, None, construct=cons, detail="sign of a * rho - b not decided: " + text)
+                continue
+            ctx.decide(rule, ok, h.fscope, None, construct=cons,
+                       detail=f"{text}: every iterate the root finder accepts (|residual| < rho) is within the overstress the yield test accepts as elastic",
+                       bad_detail=f"kinematics={_kname(kin)}: the residual tolerance handed to the root finder exceeds the tolerance of the yield test ({text}): the solve may stop at "
+                                  f"an iterate whose overstress the yield test does not accept as elastic, so the committed stress lies outside the yield surface by more than the "
+                                  f"yield tolerance and the update repeated at the same deformation yields again (the two tolerances must refer to the same stress)")
+        except INTERP_ERRORS as ex:
+            ctx.undecided(rule, h.fscope, None, construct=cons, detail=str(ex)[:300])
+
+
+d2_tolerances.RULE = "D2/T6-solver-tolerance-vs-yield-tolerance"
 
 
 # ------------------------------------------------------------------ D3
@@ -724,6 +888,12 @@ def stationarity_case(h, kin, fam, hcase, rate):
             ratio = _A.norm(simplify(dW / f))
             sg = rat_sign(ratio, p.value.interp.positive)
             if sg == 1:
+                continue
+            # the quotient may not cancel as polynomials (a residual scaled by a rational function of the constants): when
+            # dW * f' - dW' * f == 0 the ratio does not depend on the root and equals dW' / f'
+            dWp, fp = _A.diff(dW, Harness.ROOT), _A.diff(f, Harness.ROOT)
+            if not rat_is_zero(_A.norm(simplify(fp))) and rat_is_zero(_A.norm(simplify(dW * fp - dWp * f))) \
+                    and rat_sign(_A.norm(simplify(dWp / fp)), p.value.interp.positive) == 1:
                 continue
             if Harness.ROOT not in ratio.atoms() and sg is None:
                 raise EvalError(f"sign of dW/d(eqps) / residual = {short(ratio)} not decided")
@@ -1041,8 +1211,41 @@ def _make_free_energy(properties):
         Variant("finite update forgets the old eqps", J, sub_in_func("compute_state_new_finite_deformations", "    eqpsNew = stateOld[EQPS] + stateInc[EQPS]", "    eqpsNew = stateInc[EQPS]"), "D2/T2-bracket-roles"),
         Variant("linear strain with the plastic strain added", J, sub_in_func("compute_elastic_linear_strain", "    return strain - plasticStrain", "    return strain + plasticStrain"), "D3/T5-variational-wiring"),
         Variant("energy of the small-strain option uses the seth-hill strain", J, sub("            compute_elastic_strain = compute_elastic_linear_strain", "            compute_elastic_strain = compute_elastic_seth_hill_strain"), "D3/T14-kinematics-dispatch"),
-    ]
+    ] + _tolerance_variants()
     return extra + _base_variants()
+
+
+def _tolerance_variants():
+    """Two sites, one quantity: the residual tolerance of the plastic solve and the tolerance of the yield test."""
+    from optilint.selftest import Variant, sub, sub_in_func
+    J = "optimism/material/J2Plastic.py"
+    T = "D2/T6-solver-tolerance-vs-yield-tolerance"
+    solver = "    settings = ScalarRootFind.get_settings(x_tol=0, r_tol=_TOLERANCE*props[PROPS_Y0])\n"
+    test = "    isYielding = trialStress - flowStress > _TOLERANCE*props[PROPS_Y0]\n"
+    return [
+        Variant("solver tolerance relative to the current flow stress, yield test relative to the initial one", J, _chain(
+            sub_in_func("update_state", solver + "    eqpsOld = stateOld[EQPS]\n",
+                        "    eqpsOld = stateOld[EQPS]\n    flowStressOld = hardening_model.compute_flow_stress(eqpsOld, eqpsOld, dt)\n"
+                        "    settings = ScalarRootFind.get_settings(x_tol=0, r_tol=_TOLERANCE*flowStressOld)\n"),
+            sub_in_func("update_state", "(trialMises - hardening_model.compute_flow_stress(eqpsOld, eqpsOld, dt))/(3.0*props[PROPS_MU])", "(trialMises - flowStressOld)/(3.0*props[PROPS_MU])")), T),
+        Variant("solver tolerance relative to the shear modulus", J, sub_in_func("update_state", solver, solver.replace("props[PROPS_Y0]", "props[PROPS_MU]")), T),
+        Variant("solver tolerance twice the yield tolerance", J, sub_in_func("update_state", solver, solver.replace("r_tol=_TOLERANCE", "r_tol=2*_TOLERANCE")), T),
+        Variant("yield test with a tenth of the solver tolerance", J, sub_in_func("compute_state_increment", test, test.replace("> _TOLERANCE", "> 0.1*_TOLERANCE")), T),
+        Variant("yield test without tolerance", J, sub_in_func("compute_state_increment", test, "    isYielding = trialStress > flowStress\n"), T),
+        Variant("solver tolerance relative to the trial stress", J, _chain(
+            sub_in_func("update_state", solver, ""),
+            sub_in_func("update_state", "    eqpsGuess = 0.5*(lb + ub)\n", "    eqpsGuess = 0.5*(lb + ub)\n    settings = ScalarRootFind.get_settings(x_tol=0, r_tol=_TOLERANCE*trialMises)\n")), T),
+        # preserving twins: a tighter solve, and both sites reading one shared definition
+        Variant("solver tolerance half the yield tolerance (equivalent)", J, sub_in_func("update_state", solver, solver.replace("r_tol=_TOLERANCE", "r_tol=0.5*_TOLERANCE")), None),
+        Variant("both tolerances from one helper, positional settings (equivalent)", J, _chain(
+            sub_in_func("update_state", solver, "    settings = ScalarRootFind.get_settings(50, 0.0, _stress_tolerance(props))\n"),
+            sub_in_func("compute_state_increment", test, "    overstress = trialStress - flowStress\n    isYielding = overstress - _stress_tolerance(props) > 0\n"),
+            sub("def update_state(", "def _stress_tolerance(props):\n    return props[PROPS_Y0]*_TOLERANCE\n\n\ndef update_state(")), None),
+        Variant("yield test and solver tolerance both in strain units (equivalent)", J, _chain(
+            sub_in_func("compute_state_increment", test, "    isYielding = (trialStress - flowStress)/(3.0*props[PROPS_MU]) > _TOLERANCE*props[PROPS_Y0]/(3.0*props[PROPS_MU])\n"),
+            sub_in_func("update_state", solver, solver.replace("r_tol=_TOLERANCE*props[PROPS_Y0]", "r_tol=_TOLERANCE*props[PROPS_Y0]/(3.0*props[PROPS_MU])")),
+            sub_in_func("update_state", "lambda e: r(elasticTrialStrain, e, eqpsOld, dt, props, hardening_model),", "lambda e: r(elasticTrialStrain, e, eqpsOld, dt, props, hardening_model)/(3.0*props[PROPS_MU]),")), None),
+    ]
 
 
 def _base_variants():
